@@ -85,7 +85,7 @@ func c14Kinds(r *c14Row) []string {
 
 func c14Call(kind string, r *c14Row) string {
 	kw := r.KW
-	a, b := c14Lit(kind, r.A), c14Lit(kind, r.B)
+	a, b := "seq-a", "seq-b" // bound by c14 around the call
 	item := c14Elem(kind, r.Item)
 	ks := ""
 	if kw.St >= 0 {
@@ -103,12 +103,16 @@ func c14Call(kind string, r *c14Row) string {
 	if kw.Key == "inc" {
 		ks += " :key #'1+"
 	}
-	if kw.Test == "lt" {
+	switch kw.Test {
+	case "lt", "nlt":
+		name := map[string]string{"lt": ":test", "nlt": ":test-not"}[kw.Test]
 		if kind == "string" {
-			ks += " :test #'char<"
+			ks += " " + name + " #'char<"
 		} else {
-			ks += " :test #'<"
+			ks += " " + name + " #'<"
 		}
+	case "neql":
+		ks += " :test-not #'eql"
 	}
 	pred := "#'oddp"
 	if kind == "string" {
@@ -175,11 +179,20 @@ func c14Call(kind string, r *c14Row) string {
 		if kw.Fe {
 			fe = " :from-end t"
 		}
+		if kw.St >= 0 {
+			fe += fmt.Sprintf(" :start %d", kw.St)
+		}
+		if kw.En >= 0 {
+			fe += fmt.Sprintf(" :end %d", kw.En)
+		}
+		if kw.Key == "inc" {
+			fe += " :key #'1+"
+		}
 		return fmt.Sprintf("(reduce #'- %s :initial-value %d%s)", a, r.Item, fe)
 	case "concatenate":
 		return fmt.Sprintf("(concatenate %s %s %s)", typ, a, b)
 	case "append", "union", "intersection", "set-difference", "subsetp":
-		return fmt.Sprintf("(%s %s %s)", r.Fn, a, b)
+		return fmt.Sprintf("(%s %s %s%s)", r.Fn, a, b, ks)
 	case "member":
 		return fmt.Sprintf("(member %s %s%s)", item, a, ks)
 	case "assoc", "rassoc":
@@ -218,11 +231,21 @@ func c14(args []string) {
 		}
 		res := h.V{}
 		for _, kind := range c14Kinds(&r) {
-			src := c14Call(kind, &r)
+			// the call with its sequences bound to variables; they are looked at again after the call
+			call := c14Call(kind, &r)
+			src := fmt.Sprintf("(let ((seq-a %s) (seq-b %s)) (list %s seq-a seq-b))", c14Lit(kind, r.A), c14Lit(kind, r.B), call)
+			if r.Fn == "assoc" || r.Fn == "rassoc" {
+				src = fmt.Sprintf("(list %s nil nil)", call) // the association list is built inside the call
+			}
 			o := h.Eval(s, src)
-			cell := h.V{"src": src, "st": o.Class, "fault": o.Fault(), "msg": fmt.Sprintf("%.100s", o.Msg)}
-			if o.OK() {
-				cell["v"] = h.Project(o.Val)
+			show := strings.NewReplacer("seq-a", c14Lit(kind, r.A), "seq-b", c14Lit(kind, r.B)).Replace(call)
+			cell := h.V{"src": show, "st": o.Class, "fault": o.Fault(), "msg": fmt.Sprintf("%.100s", o.Msg)}
+			if l, ok := o.Val.(slip.List); ok && o.OK() && len(l) == 3 {
+				cell["v"] = h.Project(l[0])
+				cell["a"] = h.Project(l[1])
+				cell["b"] = h.Project(l[2])
+			} else if o.OK() {
+				cell["st"], cell["msg"] = "harness", "the wrapper did not return three objects"
 			}
 			res[kind] = cell
 		}
